@@ -19,6 +19,8 @@ CHECKS = {
          "Lean 4 proof (tiling invariant by induction over the token stream)"),
  "C11": ("4.11", "Lean theorem C11.int_valid: every well-formed integer constant of C11 6.4.4.1 (decimal, octal, hexadecimal, binary; digit strings of any length; every suffix of the table) becomes exactly one CONSTANT token with its exact text and no diagnostic, at any position and for any allowed continuation; floats, character/string constants and the malformed families are decided per input (correspondence with the model + independent recogniser), with closed kernel-evaluated witnesses of each malformed family (partial)",
          "Lean 4 proof (span lemmas over the specialised matchers, induction-free over unbounded digit strings) + literal-family correspondence"),
+ "C12": ("4.12", "Lean theorems (lexer half): the digraph/trigraph tables are exactly the standard's; `peek` returns the standard character for every table entry and every continuation; braces and brackets yield the same token kind in every spelling and lexing continues at the same place; inter-token splices in both spellings are skipped before any sub-lexer runs. The whole-sequence simulation, longest-match for multi-character operators (checked exhaustively over operators x spellings x contexts) and the diagnostics clause are decided by oracle/correspondence (partial)",
+         "Lean 4 proof (table obligations + peek/pop lemmas) + respelling oracle and lex correspondence"),
  "C15": ("4.15", "Lean theorems about the work-list loop of main over a file-system model: when every argument exists the selection is exactly the named .c/.h files in order followed by the non-hidden *.c/*.h regular files below each named directory, once per mention; a missing path aborts with nothing analysed; no argument = the cwd tree; other suffixes contribute nothing; tied to __main__.py by the select correspondence on generated trees and an independent os.walk oracle; --use-gitignore compared against git's own answers",
          "Lean 4 proof (fold invariant over the argument list) + select correspondence"),
 }
